@@ -420,6 +420,8 @@ def circuit_method(I, recv, o, name, args, kwargs, e, fr):
             I.events.append(("tgate-emit", fr.func.fq, name, where(fr, e)))
         else:
             leaf = ("emit", name, arity)
+            if arity >= 2:
+                I.events.append(("glue-2q", name, tuple(vkey(a) for a in args), where(fr, e), fr.func.fq))
         I.mutate(o, "append " + name, e)
         o.term = t_seq(o.term, t_star(leaf) if I.weak(o) else leaf)
         return Sym("instrset")
@@ -524,7 +526,7 @@ def dict_method(I, recv, o, name, args, kwargs, e, fr):
         for (k, v, _w) in reversed(o.meta.get("stores", [])):
             if key is not None and vkey(k) == vkey(key):
                 return v
-        if o.shared() and I.can_fork():
+        if o.shared() and I.can_fork() and I.is_cache(o):
             # a cache lookup: MISS first (its store becomes the model of the contents), then HIT
             if I.decide(("cache-miss", o.origin[1])):
                 return dflt
